@@ -452,7 +452,7 @@ func newAZSelector(clientAZ string, startIdx int) func(uint16, []NodeInfo) int {
 		}
 
 		// Round-Robin on ALL available nodes
-		if count := uint32(len(nodes) - startIdx); count > 0 {
+		if count := uint32(max(len(nodes)-startIdx, 0)); count > 0 {
 			c := counter.Add(1)
 			return int(c%count) + startIdx
 		}
